@@ -192,6 +192,12 @@ LoopProgs == {[p |-> <<Assign("loop", IntL(1), 1)>>, d |-> <<>>],
               [p |-> <<Each("v", Var("ar"), <<Assign("t", V, 1)>>, NoElse, 1), P(Var("t"))>>, d |-> CondData],
               [p |-> <<Each("v", ArrL(<<IntL(1), StrL("s")>>), <<P(V)>>, NoElse, 1)>>, d |-> <<>>]}
              \cup {[p |-> p, d |-> LoopData] : p \in UNION {LoopCtx(Assign("loop", e, 1)) : e \in LoopVals}}
+             \* names that differ in the case of their first letter are different names
+             \cup {[p |-> <<Assign("Xa", IntL(1), 1), P(Var("xa"))>>, d |-> <<>>], [p |-> <<Assign("xa", IntL(1), 1), P(Var("Xa"))>>, d |-> <<>>],
+                   [p |-> <<Assign("Xa", IntL(1), 1), Assign("xa", StrL("s"), 1), P(Var("xa")), P(Var("Xa"))>>, d |-> <<>>],
+                   [p |-> <<Each("xa", ArrL(<<StrL("p")>>), <<P(Var("xa")), P(Var("Xa"))>>, NoElse, 1)>>, d |-> <<[n |-> "Xa", v |-> I(4)]>>],
+                   [p |-> <<P(Var("age")), P(Var("Age"))>>, d |-> <<[n |-> "Age", v |-> I(4)], [n |-> "age", v |-> S("s")]>>],
+                   [p |-> <<P(Var("age"))>>, d |-> <<[n |-> "Age", v |-> I(4)]>>]}
              \* a name of the enclosing block read and then assigned in the body: the loop's own binding is what later passes read
              \cup {[p |-> <<Assign("t", IntL(0), 1), Each("v", Var("ar"), <<Assign("t", Bin("+", Var("t"), V), 1), P(Var("t")), H(",")>>, NoElse, 1), H("="), P(Var("t"))>>, d |-> CondData],
                    [p |-> <<Each("v", Var("ar"), <<P(Var("ti")), Assign("ti", Bin("+", Var("ti"), IntL(1)), 1), H(",")>>, NoElse, 1), P(Var("ti"))>>, d |-> CondData],
